@@ -77,6 +77,9 @@ def run(f_on, f_off, nonce, f_allfeat=None, positive=None):
             need.append(('raw pointer comparison', 'ptrcmp' in kinds))
             need.append(('interior-mutable field', 'state-field' in kinds))
             need.append(('static with shared state', 'static-state' in kinds))
+            pk = {f.where for f in c2.findings if f.key.endswith('|ptrkey')}
+            need.append(('sort keyed by an address', any('by_address' in w for w in pk)))
+            need.append(('raw pointers merely stored not reported as keys', not any('keep_pointers' in w for w in pk)))
             p2i = {f.where for f in c2.findings if f.key.endswith('|ptr2int')}
             need.append(('pointer transmuted to an integer', any('address_of' in w for w in p2i)))
             need.append(('compiler-inserted pointer check not reported', not any('through_raw' in w for w in p2i)))
